@@ -11,7 +11,7 @@ from vlib import scenario as S
 
 LEVEL = 'exploration'
 TIERS = {
-    'quick': {'budget': 25, 'watchdog': 300, 'shards': 1},
+    'quick': {'budget': 40, 'watchdog': 300, 'shards': 1},
     'thorough': {'budget': 300, 'watchdog': 900, 'shards': 16},
 }
 NAMESPACES = ['/', '/a', '/b']
@@ -449,14 +449,19 @@ def run(ctx):
     ctx.require('reconnect_race_schedules', 30)
     ctx.require('reconnect_race_accepted', 5)
     ctx.require('first_touch_schedules', 100)
+    ctx.require('two_client_session_schedules', 100)
     if ctx.shard == 0:
-        c16_sched.run_part(ctx)
+        share = (ctx.budget or 40) * 0.15
+        c16_sched.run_part(ctx, share)
         # two handler threads of one client use its untouched session
-        c16_sched.run_first_touch_part(ctx)
+        c16_sched.run_first_touch_part(ctx, share)
+        # handlers of different clients use their sessions at the same time
+        c16_sched.run_two_clients_part(ctx, share)
     else:
         ctx.required.pop('reconnect_race_schedules')
         ctx.required.pop('reconnect_race_accepted')
         ctx.required.pop('first_touch_schedules')
+        ctx.required.pop('two_client_session_schedules')
     k = 0
     while not ctx.out_of_time() and not ctx.too_many_violations():
         run_case(ctx, k)
@@ -465,7 +470,7 @@ def run(ctx):
 
 
 def replay(ctx, w):
-    if w['witness'].get('part') in ('reconnect_race', 'first_touch'):
+    if w['witness'].get('part') in ('reconnect_race', 'first_touch', 'two_clients'):
         from checks import c16_sched
         return c16_sched.replay(ctx, w)
     run_case(ctx, w['witness']['case_index'])
